@@ -1547,6 +1547,7 @@ open_common(kdump_ctx_t *ctx)
 		return set_error(ctx, KDUMP_ERR_SYSTEM,
 				 "Cannot allocate %s", "file pagemap");
 	bmp->priv = ctx->shared;
+	bmp_bind_format(bmp, ctx->shared);
 	shared_incref_locked(ctx->shared);
 	set_file_pagemap(ctx, bmp);
 
@@ -1555,6 +1556,7 @@ open_common(kdump_ctx_t *ctx)
 		return set_error(ctx, KDUMP_ERR_SYSTEM,
 				 "Cannot allocate %s", "memory pagemap");
 	val.bitmap->priv = ctx->shared;
+	bmp_bind_format(val.bitmap, ctx->shared);
 	shared_incref_locked(ctx->shared);
 	ret = set_attr(ctx, gattr(ctx, GKI_memory_pagemap), ATTR_DEFAULT, &val);
 	if (ret != KDUMP_OK)
